@@ -48,10 +48,12 @@ def write(root, ds, *, lidar_channel="LIDAR_TOP", vis_convention="names", time_u
                             "scene_token": "scene-0"})
         e = s["ego"]
         rot = list(e["quat"]) if "quat" in e else quat(e.get("yaw", e.get("q", 0) * math.pi / 2))
-        T["ego_pose"].append({"token": "ego-%d" % k, "timestamp": ts, "rotation": rot, "translation": [float(e["x"]), float(e["y"]), float(e.get("z", 0.0))]})
+        # a key frame's own record is stamped when ITS sensor fired: close to the sample's time, not equal to it (the schema allows that)
+        sd_ts = {"lidar": ts - 3721 - 7 * k, "cam": ts + 12345 + k}
+        T["ego_pose"].append({"token": "ego-%d" % k, "timestamp": sd_ts["lidar"], "rotation": rot, "translation": [float(e["x"]), float(e["y"]), float(e.get("z", 0.0))]})
         for kind, cs in (("lidar", "cs-lidar"), ("cam", "cs-cam")):
             T["sample_data"].append({"token": "sd-%s-%d" % (kind, k), "sample_token": "sample-%d" % k, "ego_pose_token": "ego-%d" % k, "calibrated_sensor_token": cs,
-                                     "timestamp": ts, "fileformat": "pcd" if kind == "lidar" else "jpg", "is_key_frame": True, "height": 0 if kind == "lidar" else 720,
+                                     "timestamp": sd_ts[kind], "fileformat": "pcd" if kind == "lidar" else "jpg", "is_key_frame": True, "height": 0 if kind == "lidar" else 720,
                                      "width": 0 if kind == "lidar" else 1280, "filename": "data/%s/%d.%s" % (kind, k, "pcd.bin" if kind == "lidar" else "jpg"),
                                      "prev": "sd-%s-%d" % (kind, k - 1) if k > 1 else "", "next": "sd-%s-%d" % (kind, k + 1) if k < n else ""})
     anns = sorted(ds["anns"], key=lambda a: (a["inst"], a["sample"]))
